@@ -571,8 +571,15 @@ def check_rot(res, spec, pv, ang):
         cx.bad('build_failed', f'could not construct region: {type(exc).__name__}: {exc}')
         return
     f0 = fp(reg)
+    arg_c, arg_a = PixCoord(pcx, pcy), G._angle_obj(ang)
+    fa0 = [fp(arg_c), fp(arg_a)]
     try:
-        R = reg.rotate(PixCoord(pcx, pcy), G._angle_obj(ang))
+        R = reg.rotate(arg_c, arg_a)
+        if [fp(arg_c), fp(arg_a)] != fa0:
+            cx.bad('argument_mutated', f'rotate changed its own arguments: centre/angle {fa0} -> {[fp(arg_c), fp(arg_a)]}')
+        # the rotated region must not keep the caller's angle object either (later edits of it would leak in)
+        if getattr(R, 'angle', None) is arg_a:
+            cx.bad('argument_aliased', 'the rotated region stores the caller\'s angle object itself')
     except Exception as exc:
         cx.bad('unexpected_exception', f'rotate raised {type(exc).__name__}: {exc}')
         res.outcome(('rot', cls, ang[1] + '/' + ang[2], 'raised'))
